@@ -8,6 +8,7 @@ import (
 	"sort"
 	"strconv"
 	"strings"
+	"sync"
 
 	"github.com/filecoin-project/go-f3/internal/verifh/lib/vh"
 	"github.com/ipfs/go-datastore"
@@ -29,6 +30,7 @@ type faultDS struct {
 	writes  []string // tokens of the writes applied since resetLog
 	ordRaw  string   // key order returned by the last query without the /certstore prefix ("-": none)
 	ordIn   string   // ... with the /certstore prefix
+	quiet   bool     // no write log (concurrent phase)
 }
 
 func newFaultDS(in *interner, ordSeed uint64) *faultDS {
@@ -116,8 +118,10 @@ func (f *faultDS) Put(ctx context.Context, key datastore.Key, value []byte) erro
 	if err := f.admit(); err != nil {
 		return err
 	}
-	kt := f.keyTok(key.String())
-	f.writes = append(f.writes, kt+"="+f.valTok(kt, value))
+	if !f.quiet {
+		kt := f.keyTok(key.String())
+		f.writes = append(f.writes, kt+"="+f.valTok(kt, value))
+	}
 	return f.inner.Put(ctx, key, value)
 }
 
@@ -125,7 +129,9 @@ func (f *faultDS) Delete(ctx context.Context, key datastore.Key) error {
 	if err := f.admit(); err != nil {
 		return err
 	}
-	f.writes = append(f.writes, "-"+f.keyTok(key.String()))
+	if !f.quiet {
+		f.writes = append(f.writes, "-"+f.keyTok(key.String()))
+	}
 	return f.inner.Delete(ctx, key)
 }
 
@@ -184,3 +190,42 @@ func (f *faultDS) wsTok() string {
 func (f *faultDS) ordTok() string { return f.ordRaw + "/" + f.ordIn }
 
 var _ datastore.Batching = (*faultDS)(nil)
+
+// lockedDS makes the datastore safe for concurrent use (the store requires a thread-safe datastore).
+type lockedDS struct {
+	mu    sync.RWMutex
+	inner *faultDS
+}
+
+func (l *lockedDS) Put(ctx context.Context, key datastore.Key, value []byte) error {
+	l.mu.Lock()
+	defer l.mu.Unlock()
+	return l.inner.Put(ctx, key, value)
+}
+func (l *lockedDS) Delete(ctx context.Context, key datastore.Key) error {
+	l.mu.Lock()
+	defer l.mu.Unlock()
+	return l.inner.Delete(ctx, key)
+}
+func (l *lockedDS) Get(ctx context.Context, key datastore.Key) ([]byte, error) {
+	l.mu.RLock()
+	defer l.mu.RUnlock()
+	return l.inner.Get(ctx, key)
+}
+func (l *lockedDS) Has(ctx context.Context, key datastore.Key) (bool, error) {
+	l.mu.RLock()
+	defer l.mu.RUnlock()
+	return l.inner.Has(ctx, key)
+}
+func (l *lockedDS) GetSize(ctx context.Context, key datastore.Key) (int, error) {
+	l.mu.RLock()
+	defer l.mu.RUnlock()
+	return l.inner.GetSize(ctx, key)
+}
+func (l *lockedDS) Query(ctx context.Context, q query.Query) (query.Results, error) {
+	l.mu.Lock()
+	defer l.mu.Unlock()
+	return l.inner.Query(ctx, q)
+}
+func (l *lockedDS) Sync(ctx context.Context, prefix datastore.Key) error { return nil }
+func (l *lockedDS) Close() error                                       { return nil }
